@@ -82,7 +82,7 @@ def wrap_int(v, ty):
 
 
 class State:
-    __slots__ = ('frames', 'heap', 'known', 'conds', 'events', 'stack', 'visited', 'entered', 'notes', 'epoch')
+    __slots__ = ('frames', 'heap', 'known', 'conds', 'events', 'stack', 'visited', 'entered', 'notes', 'epoch', 'unrolled')
 
     def __init__(self):
         self.frames = {}
@@ -95,6 +95,7 @@ class State:
         self.entered = {}
         self.notes = []
         self.epoch = 0
+        self.unrolled = {}
 
     def copy(self):
         s = State()
@@ -108,6 +109,7 @@ class State:
         s.entered = {k: set(v) for k, v in self.entered.items()}
         s.notes = list(self.notes)
         s.epoch = self.epoch
+        s.unrolled = dict(self.unrolled)
         return s
 
 
@@ -140,8 +142,12 @@ class PathLimit(Exception):
 
 class Engine:
     def __init__(self, facts, opaque=(), inline_filter=None, max_paths=4096, max_depth=8, models=None,
-                 log_enter=False, pure=(), fold_only=None, inline_loops=(), readonly=()):
+                 log_enter=False, pure=(), fold_only=None, inline_loops=(), readonly=(), iter_adapters=True, unroll=False):
         self.facts = facts
+        self.iter_adapters = iter_adapters     # interpret closure-taking iterator adapters as one arbitrary loop iteration
+        self.unroll = unroll                   # walk loops over literal arrays element by element instead of abstracting them
+        self.conts = {}
+        self.cont_id = itertools.count(1)
         self.opaque = set(opaque)
         self.inline_filter = inline_filter
         self.max_paths = max_paths
@@ -162,6 +168,7 @@ class Engine:
         """Enumerate paths of function `fn_name`.  args: optional list of terms for the parameters
         (None entries = symbolic parameter).  Returns list of Outcome."""
         fn = self.facts.need_fn(fn_name)
+        self.root_name = fn_name
         st = State()
         fid = 0
         st.frames[fid] = {}
@@ -196,7 +203,14 @@ class Engine:
     def _exec_block(self, st, fn, fid, bb):
         cfg = fn.cfg
         # loop handling: first arrival at a loop head havocs the loop-assigned locals, second arrival ends
-        if bb in cfg.loops:
+        if bb in cfg.loops and self.unroll and self._concrete_loop(st, fn, fid, bb):
+            # a loop over a literal array: walk it element by element (bounded by the array length)
+            n = st.unrolled.get((fid, bb), 0)
+            if n > 16:
+                return [Outcome('limit', None, st, where=(fn.name, 'unroll bound'))]
+            st.unrolled[(fid, bb)] = n + 1
+            st.visited[fid] -= cfg.loops[bb]
+        elif bb in cfg.loops:
             if bb in st.entered[fid]:
                 o = Outcome('backedge', None, st, where=(fn.name, bb))
                 o.locals = dict(st.frames[fid])
@@ -237,6 +251,8 @@ class Engine:
             del st.frames[fid]
             if self.log_enter:
                 st.events.append(('exit', name, val))
+            if isinstance(dest, tuple) and dest and dest[0] == 'cont':
+                return self.conts[dest[1]](st, val)
             self._write_place(st, cfn, cfid, dest, val)
             if target is None:
                 return [Outcome('abort', None, st, where=(cfn.name, 'diverging call'))]
@@ -543,6 +559,14 @@ class Engine:
             fv = self._operand(st, fn, fid, ce['indirect']) if 'indirect' in ce else ('unk', 'fnptr')
             name = 'indirect:' + show(fv)
         info = {'callee': ce, 'term': t, 'fn': fn, 'fid': fid, 'name': name}
+        if self.unroll:
+            r = self._unroll_models(st, fn, fid, t, name, args)
+            if r is not None:
+                return r
+        if self.iter_adapters and name not in self.opaque:
+            r = self._adapter_call(st, fn, fid, t, name, args)
+            if r is not None:
+                return r
         if name in self.readonly:
             return self._opaque_call(st, fn, fid, t, name, args)
         if name not in self.opaque:
@@ -576,6 +600,271 @@ class Engine:
                 return self._inline(st, fn, fid, t, callee, args, name)
         return self._opaque_call(st, fn, fid, t, name, args)
 
+    def _concrete_loop(self, st, fn, fid, bb):
+        """the loop at bb is driven by an iterator over a literal array whose state is known on this path"""
+        for l in loop_assigned_locals(fn, fn.cfg.loops[bb]):
+            v = st.frames[fid].get(l)
+            if isinstance(v, tuple) and v and v[0] == 'iterstate':
+                return True
+        return False
+
+    def _unroll_models(self, st, fn, fid, t, name, args):
+        """into_iter / next on literal arrays, only with unroll=True; returns work list or None"""
+        base = name.rsplit('::', 1)[-1]
+        if base == 'into_iter' and len(args) == 1:
+            a = args[0]
+            by_ref = False
+            while a[0] in ('ref', 'K', 'der'):
+                by_ref = by_ref or a[0] == 'ref'
+                a = self._read_lv(st, a[1]) if (a[0] == 'ref' and a[1][0] == 'L') else a[1]
+            if a[0] == 'agg' and a[1] == 'array' and 0 < len(a[4]) <= 8:
+                elems = tuple((('ref', ('K', x)) if by_ref else x) for _, x in a[4])
+                self._write_place(st, fn, fid, t['dest'], ('iterstate', elems, 0))
+                return [(st, fn, fid, t['target'])]
+            if a[0] == 'iterstate':
+                self._write_place(st, fn, fid, t['dest'], a)
+                return [(st, fn, fid, t['target'])]
+        if base == 'next' and len(args) == 1 and args[0][0] == 'ref':
+            cur = self._read_lv(st, args[0][1])
+            if isinstance(cur, tuple) and cur and cur[0] == 'iterstate':
+                elems, i = cur[1], cur[2]
+                if i < len(elems):
+                    self._write_lv(st, args[0][1], ('iterstate', elems, i + 1), fn, event=False)
+                    val = mk_adt(OPTION, 'Some', [('0', elems[i])])
+                else:
+                    val = mk_adt(OPTION, 'None', [])
+                self._write_place(st, fn, fid, t['dest'], val)
+                return [(st, fn, fid, t['target'])]
+        return None
+
+    # ---- iterator adapters as loops ------------------------------------------------------------------
+    def _fork_bool(self, st, v):
+        """[(state, truth)] for a boolean term, recording the condition like a branch would"""
+        neg = False
+        while v[0] == 'un' and v[1] == 'Not':
+            v = v[2]
+            neg = not neg
+        if is_const(v):
+            return [(st, bool(v[1]) != neg)]
+        if v[0] == 'eqc':
+            atom, cv = v[1], v[2]
+            kn = st.known.get(atom)
+            if is_const(atom):
+                return [(st, (atom[1] == cv) != neg)]
+            if kn is not None and kn[0] == 'eq':
+                return [(st, (kn[1] == cv) != neg)]
+            if kn is not None and kn[0] == 'ne' and cv in kn[1]:
+                return [(st, neg)]
+            s1 = st.copy()
+            s1.known[atom] = ('eq', cv)
+            s1.conds.append((atom, cv))
+            ex = set(kn[1]) if kn is not None and kn[0] == 'ne' else set()
+            ex.add(cv)
+            st.known[atom] = ('ne', frozenset(ex))
+            st.conds.append((atom, ('not', (cv,))))
+            return [(s1, not neg), (st, neg)]
+        kn = st.known.get(v)
+        if kn is not None and kn[0] == 'eq':
+            return [(st, bool(kn[1]) != neg)]
+        s1 = st.copy()
+        s1.known[v] = ('eq', 1)
+        s1.conds.append((v, 1))
+        st.known[v] = ('eq', 0)
+        st.conds.append((v, 0))
+        return [(s1, not neg), (st, neg)]
+
+    ADAPTER_CONSUMERS = ('for_each', 'any', 'all', 'find', 'position', 'fold')
+    ADAPTER_LAZY_CLOSURE = ('filter', 'map')
+    ADAPTER_LAZY_PLAIN = ('cloned', 'copied', 'enumerate', 'rev', 'by_ref')
+    ADAPTER_SOURCES = ('iter', 'into_iter', 'iter_mut')
+
+    def _closure_fn(self, clo):
+        if isinstance(clo, tuple) and clo and clo[0] == 'agg' and clo[1] == 'closure':
+            return self.facts.fns.get(clo[2])
+        return None
+
+    def _parse_chain(self, st, t):
+        """(source term, [stages from the source outwards]) or None"""
+        stages = []
+        guard = 0
+        while guard < 16:
+            guard += 1
+            while t[0] in ('ref', 'der', 'K'):
+                if t[0] == 'ref' and t[1][0] == 'L':
+                    t = self._read_lv(st, t[1])
+                else:
+                    t = t[1]
+            if t[0] == 'call':
+                base = t[1].rsplit('::', 1)[-1]
+                if base in self.ADAPTER_LAZY_CLOSURE and len(t[2]) == 2:
+                    if self._closure_fn(t[2][1]) is None:
+                        return None
+                    stages.append((base, t[2][1]))
+                    t = t[2][0]
+                    continue
+                if base in self.ADAPTER_LAZY_PLAIN and len(t[2]) == 1:
+                    stages.append((base,))
+                    t = t[2][0]
+                    continue
+            break
+        stages.reverse()
+        return t, stages
+
+    def _mut_captures(self, clo):
+        """lvalues of the parent that the closure captures by unique borrow (it may assign them)"""
+        cf = self._closure_fn(clo)
+        out = []
+        if cf is None:
+            return out
+        muts = set()
+        for _, proj in cf.raw.get('debug_proj', []):
+            m = re.match(r'\(\*\(\(?\*?_1\)?\.(\d+): (&mut )', proj) or re.match(r'\(\*\(\*_1\)\.(\d+): (&mut )', proj)
+            if m:
+                muts.add(int(m.group(1)))
+        for fname, op in clo[4]:
+            k = int(fname[5:])
+            if k in muts and op[0] == 'ref':
+                out.append(op[1])
+        return out
+
+    def _adapter_call(self, st, fn, fid, t, name, args):
+        base = name.rsplit('::', 1)[-1]
+        if base not in self.ADAPTER_CONSUMERS or 'Iterator' not in name or not args:
+            return None
+        n_clo = 2 if base == 'fold' else 1
+        if len(args) != 1 + n_clo:
+            return None
+        clo = args[-1]
+        if self._closure_fn(clo) is None:
+            return None
+        parsed = self._parse_chain(st, args[0])
+        if parsed is None:
+            return None
+        source, stages = parsed
+        uid = next(self.uid)
+        marker = ('adapter', uid)
+        closures = [s_[1] for s_ in stages if len(s_) == 2] + [clo]
+        # loop variables: everything the closures may assign
+        before = {}
+        lvs = []
+        for c in closures:
+            for lv in self._mut_captures(c):
+                root = lv
+                while root[0] in ('fld', 'idx'):
+                    root = root[1]
+                if root[0] == 'L' and root[1] == fid and lv == root and lv[2] not in before and not fn.local_ty(lv[2]).startswith('&'):
+                    before[lv[2]] = st.frames[fid].get(lv[2])
+                    lvs.append(lv[2])
+        for l in lvs:
+            st.frames[fid][l] = ('lv', marker, l)
+        acc_key = None
+        if base == 'fold':
+            acc_key = 'acc%d' % uid
+            before[acc_key] = args[1]
+            st.frames[fid][acc_key] = ('lv', marker, acc_key)
+        st.epoch += 1
+        st.events.append(('loop_head', fn.name, marker, before))
+        st.events.append(('adapter', base, marker, source, tuple(s_[0] for s_ in stages)))
+        src_base = source[1].rsplit('::', 1)[-1] if source[0] == 'call' else ''
+        elem0 = ('elem', uid)
+
+        def finish_exit(s_, value):
+            self._write_place(s_, fn, fid, t['dest'], value)
+            if t['target'] is None:
+                return [Outcome('abort', None, s_, where=(fn.name, name))]
+            return [(s_, fn, fid, t['target'])]
+
+        def backedge(s_, value=None):
+            o = Outcome('backedge', value, s_, where=(fn.name, marker))
+            o.locals = dict(s_.frames[fid])
+            return [o]
+
+        def call_closure(s_, c, cargs, k):
+            cf = self._closure_fn(c)
+            nfid = next(self.fid)
+            fr = {}
+            s_.frames[nfid] = fr
+            s_.visited[nfid] = set()
+            s_.entered[nfid] = set()
+            ety = cf.local_ty(1)
+            if ety.startswith('&'):
+                fr[-1] = c
+                fr[1] = ('ref', ('L', nfid, -1))
+            else:
+                fr[1] = c
+            for i_, x in enumerate(cargs):
+                fr[2 + i_] = x
+            cid = next(self.cont_id)
+            self.conts[cid] = k
+            s_.stack.append((fn, fid, ('cont', cid), None, cf.name))
+            return [(s_, cf, nfid, 0)]
+
+        def consume(s_, elem):
+            if base == 'for_each':
+                return call_closure(s_, clo, [elem], lambda s2, v: backedge(s2))
+            if base in ('any', 'all', 'position'):
+                def k(s2, v):
+                    out = []
+                    for s3, truth in self._fork_bool(s2, v):
+                        stop = truth if base in ('any', 'position') else (not truth)
+                        if stop:
+                            res = C(base == 'any') if base != 'position' else mk_adt(OPTION, 'Some', [('0', ('pos', uid))])
+                            out.extend(finish_exit(s3, res))
+                        else:
+                            out.extend(backedge(s3))
+                    return out
+                return call_closure(s_, clo, [elem], k)
+            if base == 'find':
+                def k(s2, v):
+                    out = []
+                    for s3, truth in self._fork_bool(s2, v):
+                        if truth:
+                            out.extend(finish_exit(s3, mk_adt(OPTION, 'Some', [('0', elem)])))
+                        else:
+                            out.extend(backedge(s3))
+                    return out
+                return call_closure(s_, clo, [('ref', ('K', elem))], k)
+            if base == 'fold':
+                def k(s2, v):
+                    s2.frames[fid][acc_key] = v
+                    return backedge(s2, v)
+                return call_closure(s_, clo, [s_.frames[fid][acc_key], elem], k)
+            return None
+
+        def stage(s_, i, elem):
+            if i == len(stages):
+                return consume(s_, elem)
+            sg = stages[i]
+            if sg[0] in ('cloned', 'copied'):
+                return stage(s_, i + 1, ('der', elem))
+            if sg[0] == 'enumerate':
+                return stage(s_, i + 1, mk_tuple(('pos', uid), elem))
+            if sg[0] in ('rev', 'by_ref'):
+                return stage(s_, i + 1, elem)
+            if sg[0] == 'map':
+                return call_closure(s_, sg[1], [elem], lambda s2, v: stage(s2, i + 1, v))
+            if sg[0] == 'filter':
+                def k(s2, v):
+                    out = []
+                    for s3, truth in self._fork_bool(s2, v):
+                        out.extend(stage(s3, i + 1, elem) if truth else backedge(s3))
+                    return out
+                return call_closure(s_, sg[1], [('ref', ('K', elem))], k)
+            return backedge(s_)
+
+        body = st.copy()
+        work = stage(body, 0, elem0) or []
+        # the adapter is over: loop variables keep their arbitrary values
+        if base == 'for_each':
+            exit_val = UNIT
+        elif base in ('any', 'all'):
+            exit_val = C(base == 'all')
+        elif base in ('find', 'position'):
+            exit_val = mk_adt(OPTION, 'None', [])
+        else:
+            exit_val = ('lv', marker, acc_key)
+        return list(work) + finish_exit(st, exit_val)
+
     def _find_model(self, name, ce):
         m = self.models.get(name)
         if m is not None:
@@ -588,8 +877,8 @@ class Engine:
     def _inlinable(self, st, callee, name):
         if len(st.stack) >= self.max_depth:
             return False
-        if any(f[4] == name for f in st.stack):
-            return False
+        if any(f[4] == name for f in st.stack) or name == getattr(self, 'root_name', None):
+            return False      # recursion (also through a closure of the analysed function) is never unfolded
         if self.inline_filter is not None and not self.inline_filter(name, callee):
             return False
         if callee.cfg.has_loops() and name not in self.inline_loops:
@@ -1438,9 +1727,15 @@ def show(t, depth=0):
     if k == 'disp':
         return '{%s}' % show(t[1], d)
     if k == 'lv':
+        if isinstance(t[1], tuple):
+            return 'loopvar(%s%s,%s)' % (t[1][0], t[1][1], t[2] if isinstance(t[2], str) else '_%d' % t[2])
         return 'loopvar(bb%d,_%d)' % (t[1], t[2])
     if k == 'hv':
         return 'havoc#%d' % t[1]
+    if k == 'elem':
+        return 'elem#%d' % t[1]
+    if k == 'pos':
+        return 'pos#%d' % t[1]
     if k == 'fnitem':
         return 'fn ' + t[1]
     if k == 'apply':
